@@ -11,6 +11,7 @@ import (
 	"fmt"
 	"io"
 	"log"
+	"sort"
 	"strings"
 	"sync"
 	"sync/atomic"
@@ -50,9 +51,22 @@ type H struct {
 	OnPoint func(name string) // extra observer for named points (crash explorer)
 
 	gateOpen atomic.Bool
-	permits  chan struct{}
 	mu       sync.Mutex
+
+	// flush workers parked at the gate, each with the WAL segment id of the memtable it claimed
+	parkMu sync.Mutex
+	parked []*flushTicket
 }
+
+type flushTicket struct {
+	seg uint64
+	ch  chan struct{}
+}
+
+// multiFlush records whether the code under test was ever seen with two flush workers holding a
+// memtable at the same time: 0 unknown, 1 no (the unchanged tree starts exactly one worker),
+// 2 yes. It is a static property of the code under test, decided once per process.
+var multiFlush atomic.Int32
 
 var current atomic.Pointer[H]
 
@@ -111,7 +125,7 @@ func (c Config) Options(dir string) *NoKV.Options {
 
 // Open opens a DB in dir with the flush worker gated and compaction paused.
 func Open(dir string, cfg Config) (h *H, err error) {
-	h = &H{Dir: dir, Cfg: cfg, permits: make(chan struct{}, 1024)}
+	h = &H{Dir: dir, Cfg: cfg}
 	h.install()
 	defer func() {
 		if r := recover(); r != nil {
@@ -145,20 +159,72 @@ func (h *H) install() {
 		if cur == nil {
 			return
 		}
-		if name == "lsm.flush.begin" && !cur.gateOpen.Load() {
-			for !cur.gateOpen.Load() {
-				select {
-				case <-cur.permits:
-					goto out
-				case <-time.After(200 * time.Microsecond):
-				}
-			}
-		}
-	out:
 		if f := cur.OnPoint; f != nil {
 			f(name)
 		}
 	})
+	// the flush gate: a worker that claimed a memtable parks here, announcing the memtable's WAL
+	// segment, until a maintenance transition releases exactly that worker (or the gate opens)
+	verifhook.SetPointIDHandler(func(name string, id uint64) {
+		cur := current.Load()
+		if cur == nil || name != "lsm.flush.claimed" || cur.gateOpen.Load() {
+			return
+		}
+		t := &flushTicket{seg: id, ch: make(chan struct{})}
+		cur.parkMu.Lock()
+		cur.parked = append(cur.parked, t)
+		cur.parkMu.Unlock()
+	wait:
+		for !cur.gateOpen.Load() {
+			select {
+			case <-t.ch:
+				break wait
+			case <-time.After(200 * time.Microsecond):
+			}
+		}
+		cur.parkMu.Lock()
+		for i, x := range cur.parked {
+			if x == t {
+				cur.parked = append(cur.parked[:i], cur.parked[i+1:]...)
+				break
+			}
+		}
+		cur.parkMu.Unlock()
+	})
+}
+
+// parkedWorkers waits (up to d) until at least n flush workers are parked and returns how many are.
+func (h *H) parkedWorkers(n int, d time.Duration) int {
+	deadline := time.Now().Add(d)
+	for {
+		h.parkMu.Lock()
+		k := len(h.parked)
+		h.parkMu.Unlock()
+		if k >= n || time.Now().After(deadline) {
+			return k
+		}
+		time.Sleep(20 * time.Microsecond)
+	}
+}
+
+// release lets the parked flush worker holding the k-th oldest memtable (by WAL segment) run.
+func (h *H) release(k int) bool {
+	h.parkMu.Lock()
+	defer h.parkMu.Unlock()
+	if k >= len(h.parked) {
+		return false
+	}
+	ts := append([]*flushTicket(nil), h.parked...)
+	sort.Slice(ts, func(i, j int) bool { return ts[i].seg < ts[j].seg })
+	t := ts[k]
+	for i, x := range h.parked {
+		if x == t {
+			h.parked = append(h.parked[:i], h.parked[i+1:]...)
+			break
+		}
+	}
+	close(t.ch)
+	return true
 }
 
 // Close opens the flush gate (queued flushes run, as in a real clean close) and closes the DB.
@@ -183,9 +249,9 @@ func (h *H) Reopen() error {
 		return err
 	}
 	h.gateOpen.Store(false)
-	for len(h.permits) > 0 {
-		<-h.permits
-	}
+	h.parkMu.Lock()
+	h.parked = nil
+	h.parkMu.Unlock()
 	h.install()
 	var err error
 	func() {
@@ -201,13 +267,26 @@ func (h *H) Reopen() error {
 }
 
 // FlushOne lets the flush worker flush the oldest immutable memtable and waits for it.
-func (h *H) FlushOne() (bool, error) {
+func (h *H) FlushOne() (bool, error) { return h.flushNth(0) }
+
+// flushNth releases the parked flush worker that holds the k-th oldest claimed memtable and
+// waits for that flush to complete. k>0 only exists when the code under test runs several flush
+// workers (the unchanged tree runs one, so flushes complete in seal order).
+func (h *H) flushNth(k int) (bool, error) {
 	l := h.DB.VerifLSM()
-	if l.VerifNumImmutables() == 0 {
+	if l.VerifNumImmutables() <= k {
 		return false, nil
 	}
 	before := l.FlushMetrics().Completed
-	h.permits <- struct{}{}
+	if h.parkedWorkers(k+1, 20*time.Second) <= k {
+		if k > 0 {
+			return false, nil
+		}
+		return false, errors.New("no flush worker claimed the sealed memtable within 20s")
+	}
+	if !h.release(k) {
+		return false, errors.New("flush worker vanished from the gate")
+	}
 	deadline := time.Now().Add(20 * time.Second)
 	for l.FlushMetrics().Completed == before {
 		if time.Now().After(deadline) {
@@ -216,6 +295,27 @@ func (h *H) FlushOne() (bool, error) {
 		time.Sleep(20 * time.Microsecond)
 	}
 	return true, nil
+}
+
+// severalFlushWorkers reports whether two flush workers hold memtables right now. With fewer than
+// two sealed memtables the answer is no; otherwise the first call in a process waits (bounded)
+// for a second worker to arrive and remembers whether the code under test has one.
+func (h *H) severalFlushWorkers() bool {
+	if h.DB.VerifLSM().VerifNumImmutables() < 2 {
+		return false
+	}
+	switch multiFlush.Load() {
+	case 1:
+		return false
+	case 2:
+		return h.parkedWorkers(2, 200*time.Millisecond) >= 2
+	}
+	if h.parkedWorkers(2, 100*time.Millisecond) >= 2 {
+		multiFlush.Store(2)
+		return true
+	}
+	multiFlush.Store(1)
+	return false
 }
 
 // MaintMenu lists the maintenance transitions that can do something in the current state.
@@ -227,6 +327,11 @@ func (h *H) MaintMenu(withGC, withReopen bool) []string {
 	}
 	if l.VerifNumImmutables() > 0 {
 		ops = append(ops, "flush")
+		if h.severalFlushWorkers() {
+			// only reachable when the code under test runs more than one flush worker: the
+			// second-oldest claimed memtable is flushed before the oldest
+			ops = append(ops, "flush:1")
+		}
 	}
 	counts := l.VerifLevelCounts()
 	if counts[0][0] > 0 {
@@ -272,6 +377,8 @@ func (h *H) Maint(op string) (changed bool, err error) {
 		return h.DB.VerifRotate(), nil
 	case op == "flush":
 		return h.FlushOne()
+	case op == "flush:1":
+		return h.flushNth(1)
 	case op == "rf": // macro: seal the active memtable and flush every immutable
 		rotated := h.DB.VerifRotate()
 		flushed := false
